@@ -1,6 +1,7 @@
 //! Shared drivers: deterministic keys, recording key wrappers, small enumerators.
 
 pub mod msg;
+pub mod sigs;
 
 use std::sync::{Arc, Mutex, OnceLock};
 
